@@ -34,6 +34,11 @@ type TaskSpec struct {
 	Context string `json:"ctx,omitempty"`
 	NCmd    int    `json:"ncmd"`
 	NVar    int    `json:"nvar,omitempty"`
+	// BlankAt: 1-based position at which an empty command entry ("") is declared among the commands
+	// (a no-op); 0 = none
+	BlankAt int `json:"blankat,omitempty"`
+	// BgPrefix: commands that start with a background statement ("true & <command>")
+	BgPrefix map[int]bool `json:"bgprefix,omitempty"`
 	// EmptyVar: 1-based index of a variation that is declared empty (`{}`: "run once with the
 	// defaults, then once per override"); 0 = none. Its commands carry no variation marker.
 	EmptyVar    int               `json:"emptyvar,omitempty"`
@@ -242,11 +247,19 @@ func buildRealTask(ts *TaskSpec) *task.Task {
 	t.Name = ts.Name
 	t.Context = ts.Context
 	for i := 0; i < ts.NCmd; i++ {
-		if txt, ok := ts.CmdText[i]; ok {
-			t.Commands = append(t.Commands, txt)
-		} else {
-			t.Commands = append(t.Commands, cmdText(ts.Name, "cmd", i))
+		if ts.BlankAt == i+1 {
+			t.Commands = append(t.Commands, "")
 		}
+		txt, ok := ts.CmdText[i]
+		if !ok {
+			txt = cmdText(ts.Name, "cmd", i)
+		}
+		if ts.BgPrefix[i] {
+			// a background job (a builtin: nothing to simulate) in front of the command proper; the
+			// command's exit status is that of its last statement
+			txt = "true & " + txt
+		}
+		t.Commands = append(t.Commands, txt)
 	}
 	for i := 0; i < ts.NBefore; i++ {
 		if txt, ok := ts.HookText[fmt.Sprintf("before/%d", i)]; ok {
